@@ -227,6 +227,7 @@ type hfunc struct {
 	writesHeap bool
 	fuel, pure bool
 	selfRec    bool // calls itself: a Fixpoint on fuel
+	ctor       bool // q := new(V); ...; return q: the fields of the new value struct are returned
 	tparams    []string
 }
 
@@ -687,8 +688,20 @@ func (g *hgen) inferStateful() {
 						case *ast.FuncLit:
 							mark(cal, i)
 						case *ast.Ident:
-							if pv, ok := g.info.Uses[x].(*types.Var); ok && g.stateful[g.paramKey(fn, pv.Name())] && g.isParamOf(fn, pv) {
+							pv, ok := g.info.Uses[x].(*types.Var)
+							if !ok || !g.isParamOf(fn, pv) {
+								break
+							}
+							if g.stateful[g.paramKey(fn, pv.Name())] {
 								mark(cal, i)
+							}
+							// handed on to a stateful parameter: stateful here too (a pure function
+							// could not show what the callee does with it)
+							sig := cal.obj.Type().(*types.Signature)
+							if _, isFunc := pv.Type().Underlying().(*types.Signature); isFunc && i < sig.Params().Len() &&
+								g.stateful[g.paramKey(cal, sig.Params().At(i).Name())] && !g.stateful[g.paramKey(fn, pv.Name())] {
+								g.stateful[g.paramKey(fn, pv.Name())] = true
+								changed = true
 							}
 						}
 					}
@@ -781,6 +794,8 @@ type hctx struct {
 	cbState  map[*hvar]*hvar // stateful callback parameter -> its state
 	synth    map[ast.Node]*hvar
 	synthLim map[ast.Node]*hvar
+	ctorNamed *types.Named // a constructor: the instance of the value struct it makes
+	ctorRest  []ast.Stmt   // ... and its body after q := new(V)
 }
 
 func (c *hctx) fresh(base string) string {
@@ -921,6 +936,7 @@ func (c *hctx) function() {
 		}
 		return true
 	})
+	c.ctorPattern()
 	// ---- the heap this function touches
 	c.scanHeap()
 	if fn.cell != "" {
@@ -982,6 +998,21 @@ func (c *hctx) function() {
 			}
 		}
 	}
+	var ctorPre []hbind
+	if c.ctorNamed != nil {
+		s := g.structOf(c.ctorNamed)
+		fn.recvFields, fn.recvStruct, fn.ctor = true, s, true
+		for i, f := range s.fnames {
+			ft := c.instField(c.ctorNamed, s, i)
+			if ft.k == "struct" {
+				c.useStruct(ft.st, fd)
+			}
+			v := c.newVar(c.recvObj.Name()+"_"+f, ft, "field")
+			v.pos = fd.Body.Pos() // a local of the body
+			c.fields[f] = v
+			fn.mutFields = append(fn.mutFields, f)
+		}
+	}
 	// ---- parameters
 	c.cbState = map[*hvar]*hvar{}
 	for i := 0; i < sig.Params().Len(); i++ {
@@ -1021,8 +1052,20 @@ func (c *hctx) function() {
 		c.zeros[z] = v
 		fn.zeros = append(fn.zeros, z)
 	}
+	if c.ctorNamed != nil {
+		// the fields of the new struct start at their zero values; an embedded wrapper is a fresh cell
+		for _, f := range fn.mutFields {
+			v := c.fields[f]
+			if v.typ.k == "hptr" && v.typ.st != nil && v.typ.st.wrapper != "" {
+				rt := c.cellRecordType(&hty{k: "hptr", name: v.typ.name, args: v.typ.args})
+				ctorPre = append(ctorPre, hbind{pat: tuple([]string{v.name, c.needHeap(fd)}), e: "go_hnew " + c.heap.name + " " + c.zeroOf(rt, fd), isLet: true})
+				continue
+			}
+			ctorPre = append(ctorPre, hbind{pat: v.name, e: c.zeroOf(v.typ, fd), isLet: true})
+		}
+	}
 	// ---- results
-	for i := 0; i < sig.Results().Len(); i++ {
+	for i := 0; i < sig.Results().Len() && c.ctorNamed == nil; i++ {
 		rv := sig.Results().At(i)
 		t := c.mustType(rv.Type(), fd)
 		if t.k == "func" {
@@ -1049,7 +1092,11 @@ func (c *hctx) function() {
 		}
 		return c.retTerm(nil)
 	}
-	body := c.stmts(fd.Body.List, end)
+	list := fd.Body.List
+	if c.ctorNamed != nil {
+		list = c.ctorRest
+	}
+	body := wrap(ctorPre, c.stmts(list, end))
 	for i := len(c.retNames) - 1; i >= 0; i-- {
 		body = tLet{c.retNames[i].name + " : " + c.retNames[i].typ.coq(), c.zeroOf(c.retNames[i].typ, fd), body}
 	}
@@ -1302,4 +1349,71 @@ func (c *hctx) emit(body term) {
 		b.WriteString("Definition " + fn.name + tp + c.binders(sig) + fuel + " : res " + paren(c.retType()) + " :=\n  " + render(body, 1, false) + ".\n")
 	}
 	fn.text = b.String()
+}
+
+// ctorPattern: a constructor of a value struct: no receiver, the only result *V, the body
+// `q := new(V); ...; return q` with q never reassigned and every return returning q.  From that
+// statement on q plays the receiver; its fields are locals and ALL of them are returned.
+func (c *hctx) ctorPattern() {
+	fd, g := c.fn.decl, c.g
+	sig := c.fn.obj.Type().(*types.Signature)
+	if sig.Recv() != nil || sig.Results().Len() != 1 || len(fd.Body.List) == 0 {
+		return
+	}
+	pt, ok := sig.Results().At(0).Type().(*types.Pointer)
+	if !ok {
+		return
+	}
+	n := namedOf(pt)
+	if n == nil {
+		return
+	}
+	s := g.structOf(n)
+	if s == nil || s.cell || s.wrapper != "" {
+		return
+	}
+	as, ok := fd.Body.List[0].(*ast.AssignStmt)
+	if !ok || as.Tok != token.DEFINE || len(as.Lhs) != 1 || len(as.Rhs) != 1 {
+		return
+	}
+	id, ok := as.Lhs[0].(*ast.Ident)
+	call, ok2 := as.Rhs[0].(*ast.CallExpr)
+	if !ok || !ok2 || !isBuiltin(call, "new", 1) {
+		return
+	}
+	obj := g.info.Defs[id]
+	if obj == nil {
+		return
+	}
+	good := true
+	ast.Inspect(fd.Body, func(x ast.Node) bool {
+		switch v := x.(type) {
+		case *ast.ReturnStmt:
+			if len(v.Results) != 1 {
+				good = false
+			} else if rid, ok := ast.Unparen(v.Results[0]).(*ast.Ident); !ok || g.info.Uses[rid] != obj {
+				good = false
+			}
+		case *ast.AssignStmt:
+			for _, l := range v.Lhs {
+				if lid, ok := l.(*ast.Ident); ok && g.info.Uses[lid] == obj {
+					good = false
+				}
+			}
+		case *ast.FuncLit:
+			good = false
+		}
+		return true
+	})
+	if !good {
+		return
+	}
+	if tv, ok := g.info.Types[call]; ok {
+		c.ctorNamed = namedOf(tv.Type)
+	}
+	if c.ctorNamed == nil {
+		return
+	}
+	c.recvObj = obj
+	c.ctorRest = fd.Body.List[1:]
 }
